@@ -186,8 +186,7 @@ def moveBody (cfg : Config) (s1 : FState α) (cmd : Cmd α) (deltaE priorE : α)
     match lr with
     | some lr =>
       if lr.recoverExcluded && !lr.firmwareRetract then
-        (r3.1, r3.2.dropLast ++ [.g92e (n2lAbs r3.1.position.e priorE)] ++
-          (match r3.2.getLast? with | some c => [c] | none => []))
+        (r3.1, insertBeforeLast r3.2 (.g92e (n2lAbs r3.1.position.e priorE)))
       else r3
     | none => r3
   else (s, [.orig cmd])
